@@ -44,6 +44,10 @@ CHECKS = {
    technique="deviation-bounded exhaustive enumeration of an independent grammar catalogue (every variant with <=2, thorough <=3, departures from the simplest form of each production, types from a bounded universe), each variant run through the real parser+printer and compared with LLVM 14's own reading (llvm-as|llvm-dis canonical form) of input and output",
    text="An independent text generator (it never touches the library's data model) holds a catalogue of about 100 grammar productions covering all 54 instruction and 12 terminator kinds, call sites (calling conventions, attributes, operand bundles, inline asm), exception handling, constants and all constant-expression kinds, literal forms, globals, aliases/ifuncs, function headers, parameter/function attributes, comdats, type definitions (recursive, packed, opaque, aliases), attribute groups, module-level directives, metadata tuples/strings/values/named metadata/attachments and all 28 specialised debug-info nodes. Every result is used at the type LLVM's rules give it. All variants with at most 2 (thorough 3) non-default choices are generated (9k / 88k modules), validated by llvm-as (rejects are generator defects: skipped and counted), parsed and printed by the library; the printed text must be accepted by llvm-as and its llvm-dis canonical form (top-level order, attribute-group and metadata numbering normalised) must equal that of the input. Failures are bisected to single variants and reported per minimal deviation set.",
    note="Oracle: LLVM 14 tools (trusted); LLVM tool crashes are skipped and counted; constructs LLVM 14 reads differently from the library's LLVM 15 model (several definitions of one attribute group) are kept out of the compared alphabet; unnamed-value numbering belongs to C08; nesting deeper than the catalogue templates is not explored."),
+ "C02": dict(level="model_checking", design="§2 C02",
+   technique="deviation-bounded exhaustive enumeration of the generator catalogue crossed with a spelling alphabet; fixpoint and structural-digest oracles on the real parser+printer, failures bisected to single variants",
+   text="Every variant with <=2 (thorough <=3) deviations of the ~100-production catalogue (9k / 88k modules, including constructs LLVM 14 does not know) is written in 4 spellings (plain, every name redundantly quoted, comments and irregular whitespace on every line, reversed top-level order); for each: y=print(parse(x)) must parse, print(parse(y)) must equal y byte for byte, the reflection digests (pointer identity made explicit) of parse(x) and parse(y) must be equal, and the quoted/whitespace spellings must print the same y as the plain one.",
+   note="Inputs the parser rejects are outside the quantifier (C01 reports them); numbering spellings (explicit/implicit %N) are explored by C08, literal spellings by C09/C10; no LLVM involved."),
 }
 
 NOT_APPLICABLE = {}
